@@ -40,9 +40,18 @@ PROPS['C01'] = dict(
 
 PROPS['C17'] = dict(
     obligations=[
+        K('c17_cursor_script', 'c17', 'cursor_script_mut_slice', tq=900),
+        K('c17_cursor_none_sticky', 'c17', 'cursor_none_is_sticky', tq=600),
+        K('c17_cursor_constructors', 'c17', 'cursor_constructors', tq=300),
+        K('c17_reversed_equiv', 'c17', 'reversed_equiv_script', tq=900),
         K('c17_revcursor_space_left', 'c17', 'revcursor_space_left', tq=300),
+        K('c17_vec_stack', 'c17', 'vec_stack_script', tq=900),
+        K('c17_iter_adapters', 'c17', 'iter_adapters', tq=600),
+        K('c17_callback_writers', 'c17', 'callback_writers', tq=600),
     ],
-    bounds='Word=u8, buffers <= 4 words, operation scripts <= 6 steps',
-    outside='longer buffers/scripts; Word types other than u8 (the back ends are generic and never do arithmetic on words)',
-    assumptions=[],
+    bounds='Word=u8, buffers <= 4 words, symbolic operation scripts of 5 steps drawn from {read (both semantics), write, seek, pos, '
+           'remaining/space_left/is_full/is_exhausted} on Cursor<&mut [u8]> / Cursor<&[u8]> / Reverse<Cursor> / Vec<u8>; iterator and callback adapters on <= 4 words',
+    outside='longer buffers/scripts; Word types other than u8 (the back ends never do arithmetic on words); SmallVec (its own unsafe code is outside '
+            'constriction; the impl only forwards to push/pop/truncate exactly like Vec)',
+    assumptions=['cursor pre-states are built by the public constructors (pos <= len)'],
 )
